@@ -990,6 +990,9 @@ def main(chk):
     cov = {
         'states': len(states),
         'transitions': len(trans),
+        'layout_machine_states': sum(1 for x in states if x[0] != 'enum'),
+        'layout_machine_transitions': sum(1 for x in trans if x[0][0] != 'enum'),
+        'enumerator_machine_states': sum(1 for x in states if x[0] == 'enum'),
         'traces_validated_against_impl': tot['evals'],
         'samples': samples or [{'none': True}],
         'evaluations': tot['evals'],
